@@ -395,3 +395,62 @@ func (fv *FV) decodeInto(e *Env, id Term, ref Term, t types.Type, prefix string)
 		}
 	}
 }
+
+// tidwall/btree.Map[string, []byte] (the write set of an MKVS overlay): a ghost
+// map per receiver address from string keys to byte-slice values. Only the
+// point operations are modelled; Clear, Copy, Iter, Len stay opaque.
+func init() {
+	const recv = "(*github.com/tidwall/btree.Map[string, []byte])."
+	dom := func(fv *FV, e *Env, r Term) Term { return fv.loadComp(e, "BT$dom", arrSort(sStr, sBool), r) }
+	part := func(fv *FV, e *Env, name, sort string, r Term) Term {
+		return fv.loadComp(e, "BT$"+name, arrSort(sStr, sort), r)
+	}
+	lookup := func(fv *FV, e *Env, r, k Term, t types.Type) (Value, Term) {
+		present := sel(dom(fv, e, r), k)
+		v := Value{K: kSlice, Type: t,
+			T:   ite(present, sel(part(fv, e, "arr", sRef, r), k), tNull),
+			Off: ite(present, sel(part(fv, e, "off", sInt, r), k), intLit(0)),
+			Len: ite(present, sel(part(fv, e, "len", sInt, r), k), intLit(0)),
+			Cap: ite(present, sel(part(fv, e, "len", sInt, r), k), intLit(0))}
+		return v, present
+	}
+	valType := func(fv *FV, x *ast.CallExpr) types.Type {
+		if tup, ok := fv.typeOf(x).(*types.Tuple); ok && tup.Len() == 2 {
+			return tup.At(0).Type()
+		}
+		return nil
+	}
+	libModelDocs[recv+"Get"] = "ghost map: (stored slice, true) if the key is present, (nil, false) otherwise; no effect"
+	libModels[recv+"Get"] = func(fv *FV, e *Env, x *ast.CallExpr, rv *Value, args []Value) (Value, bool) {
+		t := valType(fv, x)
+		if rv == nil || len(args) != 1 || t == nil {
+			return Value{}, false
+		}
+		v, present := lookup(fv, e, rv.T, args[0].T, t)
+		return Value{K: kTuple, Tuple: []Value{v, {K: kScalar, T: present}}}, true
+	}
+	libModelDocs[recv+"Set"] = "ghost map: key now maps to the given slice (nil stays nil); returns the previous binding"
+	libModels[recv+"Set"] = func(fv *FV, e *Env, x *ast.CallExpr, rv *Value, args []Value) (Value, bool) {
+		t := valType(fv, x)
+		if rv == nil || len(args) != 2 || t == nil || args[1].K != kSlice {
+			return Value{}, false
+		}
+		prev, present := lookup(fv, e, rv.T, args[0].T, t)
+		k, nv := args[0].T, args[1]
+		fv.storeComp(e, "BT$dom", arrSort(sStr, sBool), store(dom(fv, e, rv.T), k, tTrue), rv.T)
+		fv.storeComp(e, "BT$arr", arrSort(sStr, sRef), store(part(fv, e, "arr", sRef, rv.T), k, nv.T), rv.T)
+		fv.storeComp(e, "BT$off", arrSort(sStr, sInt), store(part(fv, e, "off", sInt, rv.T), k, nv.Off), rv.T)
+		fv.storeComp(e, "BT$len", arrSort(sStr, sInt), store(part(fv, e, "len", sInt, rv.T), k, nv.Len), rv.T)
+		return Value{K: kTuple, Tuple: []Value{prev, {K: kScalar, T: present}}}, true
+	}
+	libModelDocs[recv+"Delete"] = "ghost map: key absent afterwards; returns the previous binding"
+	libModels[recv+"Delete"] = func(fv *FV, e *Env, x *ast.CallExpr, rv *Value, args []Value) (Value, bool) {
+		t := valType(fv, x)
+		if rv == nil || len(args) != 1 || t == nil {
+			return Value{}, false
+		}
+		prev, present := lookup(fv, e, rv.T, args[0].T, t)
+		fv.storeComp(e, "BT$dom", arrSort(sStr, sBool), store(dom(fv, e, rv.T), args[0].T, tFalse), rv.T)
+		return Value{K: kTuple, Tuple: []Value{prev, {K: kScalar, T: present}}}, true
+	}
+}
